@@ -7,8 +7,9 @@
   Reading of the statement.  `App.load` is `dispatch_printed_messages` after scanning: it
   builds `message_map`, runs `scan_deps` for every port name, sorts with Kahn's algorithm
   and dispatches in that order (RtoscModel/Save/{Deps,Load}.lean).  Quantified over
-    * every application `app` with `App.WF` (well-formed description), `MetaCovers` (the
-      metadata declares every dependence: rDefaultDepends / rDepends / rEnabledBy reach
+    * every application `app` with `App.WF` (well-formed description; the dependency order is any
+      finite strict partial order: independent ports may share dependants, `independent_writes_confluent`),
+      `MetaCovers` (the metadata declares every dependence: rDefaultDepends / rDepends / rEnabledBy reach
       every ancestor) and `MetaRanked` (the metadata is acyclic),
     * every file `ls` with `FileOK` (port names pairwise different, as `save_to_file`'s
       `written` set guarantees; array lines stand under array ports; no parameter is
@@ -19,6 +20,7 @@
 -/
 import RtoscModel.Proofs.SaveLoad
 import RtoscModel.Proofs.SaveExample
+import RtoscModel.Proofs.SaveExampleDiamond
 namespace Rtosc.C13
 open Rtosc Rtosc.Save
 
@@ -48,9 +50,19 @@ theorem edges_cover_dependencies (app : App) (hwf : app.WF) (hcov : app.MetaCove
     Relation.TransGen (fun i j => j ∈ deps.getD i []) ia ib :=
   Rtosc.Save.edges_cover_dependencies app hwf hcov hrank ls hnd hok deps hdeps ia ib a b ha hb hlt
 
+/-- **independent_writes_confluent** (the core of the order-independence clause): two writes to ports of which
+    neither is an ancestor of the other commute on every state, also when the two ports share dependants: the
+    change hooks re-apply the defaults of the dependants, and a shared dependant takes its guard- and
+    preset-dependent default from the final state in both orders (confluence; no condition on the shape of the
+    dependency order beyond `WF.anc_lt` / `WF.anc_closed`). -/
+theorem independent_writes_confluent (app : App) (hwf : app.WF) (pa pb : Nat) (ha : pa < app.size) (hb : pb < app.size)
+    (hne : pa ≠ pb) (h1 : pa ∉ (app.param pb).anc) (h2 : pb ∉ (app.param pa).anc) (v w : Val) (s : State) :
+    app.setParam pb w (app.setParam pa v s) = app.setParam pa v (app.setParam pb w s) :=
+  App.setParam_commute hwf ha hb hne h1 h2 v w s
+
 /-- **independent_lines_commute**: two lines that address different parameters, none of
     which is an ancestor of one of the other's, commute on every state — including
-    whether the dispatch matches at all. -/
+    whether the dispatch matches at all.  The two lines may have dependants in common. -/
 theorem independent_lines_commute (app : App) (hwf : app.WF) (a b : Line)
     (hab : ∀ pa ∈ app.lineParams a, ∀ pb ∈ app.lineParams b,
         pa ≠ pb ∧ pa ∉ (app.param pb).anc ∧ pb ∉ (app.param pa).anc) (s : State) :
@@ -96,6 +108,36 @@ example : exApp.lineLt ⟨"/p".toList, .plain [.int 1]⟩ ⟨"/s/a".toList, .pla
 open Rtosc.Save.Example in
 example : exApp.load exFile.reverse exApp.init = exApp.load exFile exApp.init :=
   kahn_perm_invariant_state exApp ex_wf ex_covers ex_ranked exFile exFile.reverse (List.reverse_perm _).symm exFile_ok _
+
+/-! ### non-vacuity for independent ports with a shared dependant and a preset-dependent array
+    (`DiamondExample.dApp`: `/p` and `/q` both re-apply the default of `/d`; `/a#2` takes its defaults from `/p`) -/
+open Rtosc.Save.DiamondExample in
+/-- `/p` (index 0) and `/q` (index 1) are independent and share the dependant `/d` (index 2) -/
+example : (0 : Nat) ∉ (dApp.param 1).anc ∧ (1 : Nat) ∉ (dApp.param 0).anc ∧
+    (0 : Nat) ∈ (dApp.param 2).anc ∧ (1 : Nat) ∈ (dApp.param 2).anc := by decide
+
+open Rtosc.Save.DiamondExample in
+/-- their writes commute although both rewrite `/d` -/
+example (s : State) : dApp.setParam 1 (.int 5) (dApp.setParam 0 (.int 1) s) = dApp.setParam 0 (.int 1) (dApp.setParam 1 (.int 5) s) :=
+  independent_writes_confluent dApp d_wf 0 1 (by decide) (by decide) (by decide) (by decide) (by decide) _ _ s
+
+open Rtosc.Save.DiamondExample in
+/-- the lines of `/p` and `/q` commute on every state -/
+example (s : State) :
+    (dApp.applyLine ⟨"/p".toList, .plain [.int 1]⟩ s).bind (dApp.applyLine ⟨"/q".toList, .plain [.int 5]⟩)
+      = (dApp.applyLine ⟨"/q".toList, .plain [.int 5]⟩ s).bind (dApp.applyLine ⟨"/p".toList, .plain [.int 1]⟩) :=
+  independent_lines_commute dApp d_wf _ _ (by decide) s
+
+open Rtosc.Save.DiamondExample in
+/-- the shared dependant's line and the array line must follow the lines of the ports they depend on -/
+example : dApp.lineLt ⟨"/q".toList, .plain [.int 5]⟩ ⟨"/d".toList, .plain [.int 4]⟩ ∧
+    dApp.lineLt ⟨"/p".toList, .plain [.int 1]⟩ ⟨"/a".toList, .arr [.int 7, .int 9]⟩ :=
+  ⟨⟨1, by decide, 2, by decide, by decide⟩, ⟨0, by decide, 4, by decide, by decide⟩⟩
+
+open Rtosc.Save.DiamondExample in
+/-- a file that lists the dependants first loads like its reverse -/
+example : dApp.load dFile.reverse dApp.init = dApp.load dFile dApp.init :=
+  kahn_perm_invariant_state dApp d_wf d_covers d_ranked dFile dFile.reverse (List.reverse_perm _).symm dFile_ok _
 
 /-! ### non-vacuity for a sub-tree enabled by a toggle of its own (`rRecur(s, rEnabledBy(s/t))`, the construct
     behind C13-F26): the hypotheses hold for `SelfExample.sApp`; its savefile lists `/s/a` before `/s/t`. -/
